@@ -115,6 +115,15 @@ struct RecSink : Sink {
         record('X', p, i, v.isValid() ? v.toInt() : -1);
         TSAN_REL(&g_tokM);      // last handler of the pipeline: still inside the critical section of the handler mutex
     }
+    bool flush() override
+    {
+        record('F', tl_prod, tl_idx, 0);
+        unsigned r = tl_rng() % 8;
+        if (r < 3) std::this_thread::yield();
+        else { volatile unsigned x = 0; for (unsigned k = tl_rng() % 3000; k; --k) x += k; }
+        record('G', tl_prod, tl_idx, 0);
+        return true;
+    }
 };
 template <class P> static void build(P &pl, bool dup)
 {
@@ -134,7 +143,7 @@ int main(int argc, char **argv)
         g_stall_ms = 0;
         is >> mode >> n >> per >> seed >> g_perturb >> dup >> g_stall_ms;
         if (mode.empty()) continue;
-        g_events.assign((size_t)n * per * 4 + 16, Ev { '?', 0, 0, 0 });
+        g_events.assign((size_t)n * per * 6 + 16, Ev { '?', 0, 0, 0 });
         g_ticket = 0;
         std::atomic<int> ready{0};
         auto producer = [&](int p, std::function<void(int, int)> send_one) {
@@ -144,12 +153,22 @@ int main(int argc, char **argv)
             tl_prod = -1;
         };
         std::vector<std::thread> ths;
-        if (mode == "logger") {
+        if (mode == "logger" || mode == "mixed" || mode == "fatal") {
             Logger lg;
             build(lg, dup);
             lg.installMessageHandler();
+            const bool mixed = mode == "mixed", fatal = mode == "fatal";
             for (int p = 0; p < n; p++)
-                ths.emplace_back(producer, p, [](int p, int i) { if (i & 1) qWarning("%d %d", p, i); else qInfo("%d %d", p, i); });
+                ths.emplace_back(producer, p, [&lg, mixed, fatal](int p, int i) {
+                    if (mixed && (p & 1)) {          // the public entry point of the same Logger
+                        QMessageLogContext ctx("mixed.cpp", i, "void direct()", "default");
+                        LogMessage m((i & 1) ? QtWarningMsg : QtInfoMsg, ctx, QString::number(p) + QLatin1Char(' ') + QString::number(i));
+                        lg.process(m);
+                    } else if (fatal && p == 0 && i % 3 == 0) {
+                        QMessageLogContext ctx("fatal.cpp", i, "void dying()", "default");
+                        Logger::messageHandler(QtFatalMsg, ctx, QString::number(p) + QLatin1Char(' ') + QString::number(i));
+                    } else if (i & 1) qWarning("%d %d", p, i); else qInfo("%d %d", p, i);
+                });
             for (auto &t : ths) t.join();
             Logger::restorePreviousMessageHandler();
         } else {
